@@ -124,3 +124,14 @@ Theorem C01_query_lexes : forall K tree un atxt ftxt vtxt,
   lex (show vb_syntax atxt ftxt vtxt (conv K un tree)) = Some (map (ltok_of atxt ftxt vtxt) (conv K un tree)).
 Proof. intros K tree un atxt ftxt vtxt H. apply lex_show; [exact H|apply conv_sep_ok]. Qed.
 Print Assumptions C01_query_lexes.
+(* field in (v1, ..., vn) / field contains-all (...): the rendered list, read by the target language's list
+   reader, gives the keys of exactly the values in order, and the text is one lexical unit *)
+From PS Require Import Spec.Query Proofs.InListP.
+Theorem C01_inlist_faithful : forall extra k disj f fo vals txt,
+  wok extra = true -> k_qpat k = None -> fo_ok (W_of extra) f fo = true ->
+  vals <> [] -> forallb in_val_okb vals = true ->
+  render_in (vb k) disj f fo vals = Ok txt ->
+  shapeb txt = true /\
+  exists es, all_some (map (fun v => key_of_val f (fst v)) vals) = Some es /\ in_decode (W_of extra) txt = Some (disj, es).
+Proof. intros extra k disj f fo vals txt Hw Hq. exact (inlist_faithful (W_of extra) (Wspec_W_of extra Hw) k Hq disj f fo vals txt). Qed.
+Print Assumptions C01_inlist_faithful.
